@@ -90,17 +90,18 @@ InitTable == ConstTable \o <<
   VStruct("U", NoFields), VStruct("T", [a |-> VInt(1)]) >>
 
 (* Instruction cells: variant x operand class.  Targets: "t0" = Resolved(0), "next" =
-   Resolved(pc+1), "end" = Resolved(L), "max" = Resolved(usize::MAX), "unres" = Unresolved.   *)
-Targets == <<"t0", "next", "end", "max", "unres">>
+   Resolved(pc+1), "skip" = Resolved(pc+2), "end" = Resolved(L), "max" = Resolved(usize::MAX),
+   "unres" = Unresolved.                                                                     *)
+Targets == <<"t0", "next", "skip", "end", "max", "unres">>
 CellTable ==
   [i \in 1..Len(ConstTable) |-> <<"Const", ConstTable[i]>>] \o
   << <<"Identifier", "a">>, <<"Identifier", "b">>, <<"Identifier", "zz">>,
      <<"Def", "x">>, <<"Def", "g">>, <<"Get", "x">>, <<"Get", "g">>,
      <<"Dup">>, <<"Pop">>, <<"Block">>, <<"End">> >> \o
-  [i \in 1..5 |-> <<"Jump", Targets[i]>>] \o
-  [i \in 1..5 |-> <<"Branch", Targets[i]>>] \o
-  [i \in 1..5 |-> <<"Call", Targets[i]>>] \o
-  [i \in 1..5 |-> <<"Recall", Targets[i]>>] \o
+  [i \in 1..Len(Targets) |-> <<"Jump", Targets[i]>>] \o
+  [i \in 1..Len(Targets) |-> <<"Branch", Targets[i]>>] \o
+  [i \in 1..Len(Targets) |-> <<"Call", Targets[i]>>] \o
+  [i \in 1..Len(Targets) |-> <<"Recall", Targets[i]>>] \o
   << <<"ExtCall", 0, 0>>, <<"ExtCall", 0, 1>>, <<"ExtCall", 0, 2>>, <<"ExtCall", 9, 0>>,
      <<"Return">>,
      <<"Exit", "normal">>, <<"Exit", "yield">>, <<"Exit", "check">>, <<"Exit", "panic">>,
@@ -143,6 +144,20 @@ CoreDescr == {
   <<"QueryStart">>, <<"QueryNext", "x">>, <<"Serialize">>, <<"Deserialize">>, <<"SaveSP">>, <<"RestoreSP">>,
   <<"Meta", "finish">>, <<"Next">>, <<"Last">> }
 CoreCells == {i \in AllCells : CellTable[i] \in CoreDescr}
+
+(* The control alphabet: everything that touches the call-state stack (shared by SaveSP's saved
+   stack depths and Call's return addresses), the scope stack (function scopes pushed by Call,
+   popped by Return — also by a Return that consumes a SaveSP entry, which pops the *root*
+   function scope —, blocks pushed/popped by Block/End) and the names defined in it, with
+   forward, skipping and backward jumps.  Explored exhaustively to 4 instructions from value
+   stacks of depth 0..2 (only the depth matters here: SaveSP/Return turn it into an address). *)
+CtrlDescr == {
+  <<"SaveSP">>, <<"RestoreSP">>, <<"Return">>, <<"Block">>, <<"End">>, <<"Def", "x">>, <<"Get", "x">>,
+  <<"Call", "t0">>, <<"Call", "next">>, <<"Call", "skip">>,
+  <<"Jump", "t0">>, <<"Jump", "next">>, <<"Jump", "skip">>,
+  <<"Const", VInt(1)>>, <<"Dup">>, <<"Pop">>, <<"QueryNext", "x">> }
+CtrlCells == {i \in AllCells : CellTable[i] \in CtrlDescr}
+CtrlInits == {i \in AllInits : InitTable[i] = VInt(1)}
 
 Contexts == {"action", "seal", "open", "policy", "recall"}
 IoClasses == {"ok", "empty", "error", "itemerr"}
@@ -272,7 +287,7 @@ ScopeGet(mm, name) ==            \* <<found, value>>
 EnterFunction(sc) == Append(sc, << <<>> >>)
 
 (* branch targets *)
-Resolve(mm, t, L) == CASE t = "t0" -> 0 [] t = "next" -> mm.pc + 1 [] t = "end" -> L
+Resolve(mm, t, L) == CASE t = "t0" -> 0 [] t = "next" -> mm.pc + 1 [] t = "skip" -> mm.pc + 2 [] t = "end" -> L
                        [] t = "max" -> Big [] OTHER -> -1
 
 ---------------------------------------------------------------------------------
